@@ -1,8 +1,20 @@
 import RigoDriver.Ledger
+import RigoDriver.Signer
+import RigoDriver.Rlp
+import RigoDriver.EvmSync
+import RigoDriver.Commit
+import RigoDriver.App
+import RigoDriver.Stake
 
 def main (args : List String) : IO UInt32 := do
   match args with
   | ["ledger"] => RigoDriver.Ledger.run; return 0
+  | ["signer"] => RigoDriver.Signer.run; return 0
+  | ["rlp"] => RigoDriver.Rlp.run; return 0
+  | ["evmsync"] => RigoDriver.EvmSync.run; return 0
+  | ["commit"] => RigoDriver.Commit.run; return 0
+  | ["app"] => RigoDriver.App.run; return 0
+  | ["stake"] => RigoDriver.Stake.run; return 0
   | _ =>
     IO.eprintln s!"rigodriver: unknown component {args}"
     return 2
